@@ -199,6 +199,52 @@ fn paths_for(facts: &Value, rng: &mut Rng) -> Vec<(String, Vec<Step>)> {
     out
 }
 
+/// long paths into a deep structure: every level has its own id, so a path that loses, repeats or swaps a step resolves to a different id
+fn check_long_paths(ctx: &mut Ctx) {
+    let depth = 220usize;
+    let mut node = Value::Map([("depth".to_string(), Value::Int(depth as i128))].into_iter().collect());
+    for k in (0..depth).rev() {
+        let decoy = Value::Map([("depth".to_string(), Value::Int(-(k as i128) - 1)), ("n".to_string(), Value::Int(-7))].into_iter().collect());
+        // the way down is the field "n"; at every third level "n" holds a list whose element 1 is the next level (the structure stays linear in size)
+        let child = if k % 3 == 1 { Value::Vec(vec![Value::Int(2000 + k as i128), node, decoy.clone()]) } else { node };
+        node = Value::Map([("depth".to_string(), Value::Int(k as i128)), ("n".to_string(), child), ("m".to_string(), decoy.clone()), ("xs".to_string(), Value::Vec(vec![Value::Int(1000 + k as i128), decoy]))].into_iter().collect());
+    }
+    let facts = node;
+    let mut rng = ctx.rng.clone();
+    ctx.align();
+    for len in 1..=depth {
+        if !ctx.mine() {
+            continue;
+        }
+        let mut down: Vec<Step> = vec![];
+        for k in 0..len {
+            down.push(Step::Field("n".into()));
+            if k % 3 == 1 {
+                down.push(Step::Idx(1));
+            }
+        }
+        let straight: Vec<Step> = down.iter().cloned().chain([Step::Field("depth".into())]).collect();
+        let into_list: Vec<Step> = down.iter().cloned().chain([Step::Field("xs".into()), Step::Idx(0)]).collect();
+        // one step replaced by a step to the decoy / one step dropped / one step doubled
+        let at = rng.below(down.len());
+        let mut detour = straight.clone();
+        detour[at] = Step::Field("m".into());
+        let mut dropped = straight.clone();
+        dropped.remove(at);
+        let mut doubled = straight.clone();
+        doubled.insert(at, straight[at].clone());
+        for (k, steps) in [straight, into_list, detour, dropped, doubled].into_iter().enumerate() {
+            check_path(ctx, &facts, "facts", &steps, len % 5 == 0 && k < 2);
+            // the same path starting at the top-level field instead of `facts`
+            if let Some(Step::Field(first)) = steps.first() {
+                check_path(ctx, &facts, first, &steps[1..], false);
+            }
+        }
+        ctx.hit(&format!("long-path:steps{}", (len / 20) * 20));
+    }
+    ctx.rng = rng;
+}
+
 /// index steps written with leading zeros or many digits, through text only
 fn check_index_spellings(ctx: &mut Ctx) {
     let list: Vec<Value> = (0..12).map(|i| Value::Int(100 + i)).collect();
@@ -472,6 +518,8 @@ fn run(ctx: &mut Ctx) {
         }
         check_names(ctx, &mut rng);
     }
+    ctx.rng = rng.clone();
+    check_long_paths(ctx);
     if ctx.shard == 0 {
         check_index_spellings(ctx);
         check_symbol_paths(ctx);
@@ -495,6 +543,8 @@ fn finish(m: &Merged, tier: Tier) -> Finish {
     for class in ["resolved", "unknown-symbol", "unknown-function", "no-ruleset"] {
         f.floors.push(floor(format!("name lookups {class}: {}", m.c(&format!("name:{class}"))), m.c(&format!("name:{class}")) >= 100));
     }
+    f.floors.push(floor(format!("long-path length classes (steps / 20) seen: {}", m.prefix_count("long-path:")), m.prefix_count("long-path:") >= 11));
+    f.extras.insert("long_paths".into(), json!(m.prefix_map("long-path:")));
     f.extras.insert("paths".into(), json!(m.prefix_map("path:")));
     f.extras.insert("names".into(), json!(m.prefix_map("name:")));
     f.assumptions = vec!["the walker in c10.rs (walk_steps / resolve) is the statement of C10 transcribed; map lookup there is a linear scan with exact string equality".into()];
